@@ -717,7 +717,14 @@ func (s *AbsfsNFS) RenameWithContext(ctx context.Context, oldDir *NFSNode, oldNa
 	if err != nil {
 		return fmt.Errorf("rename: failed to rename %s to %s: %w", oldPath, newPath, err)
 	}
-	// Invalidate caches and negative cache entries
+	// Invalidate caches and negative cache entries. The renamed object may be a
+	// directory, so everything cached below the old and the new path is stale too.
+	s.attrCache.InvalidateTree(oldPath)
+	s.attrCache.InvalidateTree(newPath)
+	if s.dirCache != nil {
+		s.dirCache.InvalidateTree(oldPath)
+		s.dirCache.InvalidateTree(newPath)
+	}
 	s.attrCache.Invalidate(oldPath)
 	s.attrCache.Invalidate(newPath)
 	s.attrCache.Invalidate(oldDir.path)
